@@ -1035,11 +1035,18 @@ C       IF (NMAX.GT.NPN1) PRINT 9000,NMAX,NPN1
  9000 FORMAT(' NMAX = ',I2,', i.e., greater than ',I3)
       TB=TA*DSQRT(MRR*MRR+MRI*MRI)
       TB=DMAX1(TB,DFLOAT(NMAX))
+C     RJB and CJB hold their downward recursions in Z(800) and
+C     CZR(1200), CZI(1200); test the lengths as reals, before they are
+C     converted to integers (they overflow for huge arguments)
+      TNN1=1.2D0*DSQRT(DMAX1(TA,DFLOAT(NMAX)))+3D0
+      TNN2=(TB+4D0*(TB**0.33333D0)+1.2D0*DSQRT(TB))
+      IF (.NOT.(DFLOAT(NMAX)+TNN1.LE.800D0.AND.TNN2+5D0.LE.1200D0)) THEN
+         IFAIL=1
+         RETURN
+      ENDIF
       NNMAX1=1.2D0*DSQRT(DMAX1(TA,DFLOAT(NMAX)))+3D0
       NNMAX2=(TB+4D0*(TB**0.33333D0)+1.2D0*DSQRT(TB))
       NNMAX2=NNMAX2-NMAX+5
-C     RJB and CJB hold their downward recursions in Z(800) and
-C     CZR(1200), CZI(1200)
       IF (NMAX+NNMAX1.GT.800.OR.NMAX+NNMAX2.GT.1200) THEN
          IFAIL=1
          RETURN
